@@ -105,7 +105,7 @@ func (w *world) ev(e Event) {
 }
 
 func (c *devConn) Write(p []byte) (int, error) {
-	vsched.Point("write")
+	vsched.PointObj("write", c.w) // every transport operation of the client is one object: the oracle reads the global wire order
 	if c.closed {
 		c.w.ev(Event{Conn: c.id, Op: "W", Data: append([]byte(nil), p...), Err: "closed"})
 		return 0, &net.OpError{Op: "write", Net: "dev", Err: net.ErrClosed}
@@ -131,7 +131,7 @@ func (c *devConn) Read(p []byte) (int, error) {
 	} else {
 		dl = vsched.NowNs() + int64(time.Second)
 	}
-	vsched.PointWhen("read", func() bool { return len(c.chunks) > 0 || c.closed }, dl)
+	vsched.PointWhenObj("read", func() bool { return len(c.chunks) > 0 || c.closed }, dl, c.w)
 	if c.closed {
 		c.w.ev(Event{Conn: c.id, Op: "R", Err: "closed"})
 		return 0, &net.OpError{Op: "read", Net: "dev", Err: net.ErrClosed}
@@ -154,7 +154,7 @@ func (c *devConn) Read(p []byte) (int, error) {
 }
 
 func (c *devConn) Close() error {
-	vsched.Point("close")
+	vsched.PointObj("close", c.w)
 	c.w.ev(Event{Conn: c.id, Op: "C"})
 	if c.closed {
 		return &net.OpError{Op: "close", Net: "dev", Err: net.ErrClosed}
@@ -164,7 +164,7 @@ func (c *devConn) Close() error {
 }
 
 func (c *devConn) Flush() error {
-	vsched.Point("flush")
+	vsched.PointObj("flush", c.w)
 	c.w.ev(Event{Conn: c.id, Op: "F"})
 	return nil
 }
@@ -269,7 +269,7 @@ func (w *world) main() {
 		}
 		conf := modbus.ClientConfig{ReadTimeout: rt, WriteTimeout: time.Hour,
 			DialContextFunc: func(ctx context.Context, address string) (net.Conn, error) {
-				vsched.Point("dial")
+				vsched.PointObj("dial", w)
 				c := w.newConn(false)
 				w.ev(Event{Conn: c.id, Op: "D"})
 				return c, nil
